@@ -25,7 +25,7 @@ def log_uniform(lo_exp, hi_exp):
 # --------------------------------------------------------------------------- scales
 
 
-def scale_specs(octave_low_max=1000.0, allow_octave=True):
+def scale_specs(octave_low_max=1000.0, allow_octave=True, octave_low_min_exp=-3):
     opts = [
         st.just({"alias": "mel"}),
         st.just({"alias": "bark"}),
@@ -39,7 +39,7 @@ def scale_specs(octave_low_max=1000.0, allow_octave=True):
         opts.append(
             st.builds(
                 lambda lo: {"alias": "octave", "low_hz": lo},
-                st.one_of(log_uniform(-3, math.log10(octave_low_max)), st.sampled_from([1.0, 20.0, 50.0])),
+                st.one_of(log_uniform(octave_low_min_exp, math.log10(octave_low_max)), st.sampled_from([1.0, 20.0, 50.0])),
             )
         )
     return st.one_of(*opts)
